@@ -244,7 +244,11 @@ def finish(mod, res: Result, kf):
                 res.violations.append(dict(obligation=ob['id'], replay=path, confirmed=confirmed))
             else:
                 res.undecided.append(dict(obligation=ob['id'], reason='solver returned unknown / timeout'))
-        unreachable = [c for c in rep.get('covers', []) if c['result'] == 'unreachable' and c['what'] == 'return']
+        # a return statement is vacuous only when no path at all reaches it (one infeasible path among several is normal: e.g. the
+        # test-false exit of a `while x is None:` loop that is always left by break)
+        rets = [c for c in rep.get('covers', []) if c['what'] == 'return']
+        dead_lines = {c['line'] for c in rets} - {c['line'] for c in rets if c['result'] != 'unreachable'}
+        unreachable = [next(c for c in rets if c['line'] == ln) for ln in sorted(dead_lines)]
         for c in unreachable:
             res.errors.append(f"{rep['function']}: return at line {c['line']} is unreachable under the contract's precondition (vacuity guard)")
     for part, label in ((res.structural, 'structural'), (res.lemmas, 'lemma')):
